@@ -316,82 +316,116 @@ def R4_estimate(run):
         run.missing("R4", "atoms", "tests price >= upper / price <= lower not found", loc=fn.loc())
         return
 
-    def calls_under(assumptions):
+    # est_liquidity_for_token_a / _b are read spliced in (whether the two formulas are helpers or written in place is the same text)
+    def bound(t):
+        t = strip(t)
+        if is_param(t, "current_sqrt_price"):
+            return "current"
+        if is_call(t, "sqrt_price_from_tick_index"):
+            return {"tick_lower_index": "lower", "tick_upper_index": "upper"}.get(arg_name(t[2][0]), "?")
+        return "?"
+
+    def ordered(t, i):
+        """ipo(p, q).i -> the (sorted) pair of bounds, else None"""
+        t = strip(t)
+        if t[0] == "field" and t[2] == str(i) and is_call(t[1], "increasing_price_order"):
+            a_ = strip(t[1])[2]
+            return tuple(sorted((bound(a_[0]), bound(a_[1]))))
+        return None
+
+    def diff(t):
+        t = strip(t)
+        while t[0] == "call" and t[1].rsplit("::", 1)[-1] in ("into", "from") and len(t[2]) == 1:
+            t = strip(t[2][0])
+        if t[0] == "bin" and t[1].startswith("Sub") and ordered(t[2], 1) and ordered(t[2], 1) == ordered(t[3], 0):
+            return ordered(t[2], 1)
+        return None
+
+    def amount(t):
+        t = strip(t)
+        while t[0] == "call" and t[1].rsplit("::", 1)[-1] in ("into", "from") and len(t[2]) == 1:
+            t = strip(t[2][0])
+        return t[1] if t[0] == "param" else None
+
+    def as_liq_b(t):
+        """floor((amount << 64) / (upper - lower)) -> ('b', amount, bounds)"""
+        v = strip(t)
+        if v[0] == "bin" and v[1] == "Div" and diff(v[3]):
+            n_ = strip(v[2])
+            if n_[0] == "bin" and n_[1] in ("Shl", "ShlUnchecked") and const_val(n_[3]) == 64 and amount(n_[2]):
+                return ("b", amount(n_[2]), diff(v[3]))
+        return None
+
+    def as_liq_a(t):
+        """floor(((upper * lower * amount) >> 64) / (upper - lower)), shift after both multiplications -> ('a', amount, bounds)"""
+        r = strip(t)
+        if not is_call(r, "try_into_u128"):
+            return None
+        q = strip(r[2][0])
+        if not (q[0] == "field" and q[2] == "0" and is_call(q[1], "U256Muldiv::div")):
+            return None
+        d = strip(q[1])
+        num, den = strip(d[2][0]), d[2][1]
+        if not (diff(den) and is_call(num, "shift_word_right") and const_val(d[2][2]) == 0):
+            return None
+        m2 = strip(num[2][0])
+        if not (m2[0] == "call" and m2[1].endswith("U256Muldiv::mul") and amount(m2[2][1]) and is_call(m2[2][0], "mul_u256")):
+            return None
+        m1 = strip(m2[2][0])
+        prs = [ordered(x, i) for i in (0, 1) for x in m1[2] if ordered(x, i)]
+        if len(prs) == 2 and prs[0] == prs[1] == diff(den) and {0, 1} == {i for i in (0, 1) for x in m1[2] if ordered(x, i)}:
+            return ("a", amount(m2[2][1]), diff(den))
+        return None
+
+    def unwrap(t):
+        t = strip(t)
+        if t[0] == "agg" and t[2] == "Ok":
+            return strip(dict(t[3])["0"])
+        return t
+
+    def results_under(assumptions):
         pv = prov_assuming(fn, assumptions)
         out = []
-        for bi, t in fn.calls():
-            p = callee_path(t) or ""
-            if p.endswith(("est_liquidity_for_token_a", "est_liquidity_for_token_b")) and pv.flow.state_in[bi] is not None:
-                args = [pv.operand(a, bi, len(fn.blocks[bi]["s"])) for a in t["a"]]
+        for bi, bb in enumerate(fn.blocks):
+            if bb["t"]["k"] == "ret" and pv.flow.state_in[bi] is not None:
+                for l in leaves(pv.local(0, bi, len(bb["s"]))):
+                    s_ = strip(l)
+                    if s_[0] == "call" and "from_residual" in s_[1]:
+                        continue
+                    out.append(l)
+        return out, pv
 
-                def bound(t):
-                    t = strip(t)
-                    if is_param(t, "current_sqrt_price"):
-                        return "current"
-                    if is_call(t, "sqrt_price_from_tick_index"):
-                        return {"tick_lower_index": "lower", "tick_upper_index": "upper"}.get(arg_name(t[2][0]), "?")
-                    return "?"
-                # the helpers order their two prices themselves: the pair matters, not its order
-                out.append((p[-1], arg_name(args[2]), tuple(sorted((bound(args[0]), bound(args[1]))))))
-        return sorted(out), pv
+    def classify(t):
+        return as_liq_a(t) or as_liq_b(unwrap(t)) or as_liq_a(unwrap(t)) or ("?", sh(t, 60), ())
     up_t = (a_up[0], a_up[1] == "Ge")
     up_f = (a_up[0], a_up[1] != "Ge")
     lo_t = (a_lo[0], a_lo[1] == "Le")
     lo_f = (a_lo[0], a_lo[1] != "Le")
-    got, _ = calls_under([up_t])
-    run.check("R4", "above-range", got == [("b", "token_max_b", ("lower", "upper"))], "price >= upper must use only token B over [lower, upper] (found %s)" % got, loc=fn.loc(), detail="B only, over [lower, upper]")
-    got, _ = calls_under([up_f, lo_t])
-    run.check("R4", "below-range", got == [("a", "token_max_a", ("lower", "upper"))], "price <= lower must use only token A over [lower, upper] (found %s)" % got, loc=fn.loc(), detail="A only, over [lower, upper]")
-    got, pv = calls_under([up_f, lo_f])
-    ok = got == [("a", "token_max_a", ("current", "upper")), ("b", "token_max_b", ("current", "lower"))]
-    mn = [t for bi, t in fn.calls() if (callee_path(t) or "").endswith("::min") and pv.flow.state_in[bi] is not None]
-    run.check("R4", "in-range", ok and len(mn) == 1, "in range the estimate must be min(liq_a over [current, upper], liq_b over [lower, current]) (calls %s, %d min)" % (got, len(mn)), loc=fn.loc(), detail="min(liq_a[current, upper], liq_b[lower, current])")
-    # floors
-    fa = facts.need_fn(TM + "est_liquidity_for_token_a")
-    ev = preach.call_events(facts, fa, {}, lambda p: p.endswith("U256Muldiv::div"), depth=0)
-    ok = bool(ev)
-    pva = prov_of(fa)
-    incr = [bi for bi, t in fa.calls() if (callee_path(t) or "").endswith("U256Muldiv::add")]
-    run.check("R4", "floor-a", ok and not incr, "est_liquidity_for_token_a must use the truncating 256-bit division with no +1", loc=fa.loc(), detail="numerator.div(diff).0, no increment")
-    fb = facts.need_fn(TM + "est_liquidity_for_token_b")
-    divs = [st for bb in fb.blocks for st in bb["s"] if st["k"] == "=" and st["rv"].get("bin") == "Div"]
-    adds = [st for bb in fb.blocks for st in bb["s"] if st["k"] == "=" and st["rv"].get("bin") in ("Add", "AddWithOverflow")]
-    run.check("R4", "floor-b", len(divs) == 1 and not adds, "est_liquidity_for_token_b must be a single truncating division", loc=fb.loc(), detail="(amount << 64) / diff")
-    # the formulas themselves: one truncation at the very end, after every multiplication (an early shift loses bits and the result is no longer the largest L that fits)
-    def ordered(t, i):
-        t = strip(t)
-        return t[0] == "field" and t[2] == str(i) and is_call(t[1], "increasing_price_order")
-
-    def diff(t):
-        t = strip(t)
-        return t[0] == "bin" and t[1].startswith("Sub") and ordered(t[2], 1) and ordered(t[3], 0)
-    ra = [strip(x) for bi, bb in enumerate(fa.blocks) if bb["t"]["k"] == "ret" for x in leaves(pva.local(0, bi, len(bb["s"])))]
-    ok = len(ra) == 1 and is_call(ra[0], "try_into_u128")
-    if ok:
-        q = strip(ra[0][2][0])
-        ok = q[0] == "field" and q[2] == "0" and is_call(q[1], "U256Muldiv::div")
-        if ok:
-            d = strip(q[1])
-            num, den = strip(d[2][0]), d[2][1]
-            ok = diff(den) and is_call(num, "shift_word_right")
-            if ok:
-                m2 = strip(num[2][0])
-                ok = m2[0] == "call" and m2[1].endswith("U256Muldiv::mul") and is_param(m2[2][1], "token_amount_a") and is_call(m2[2][0], "mul_u256")
-                if ok:
-                    m1 = strip(m2[2][0])
-                    ok = {0, 1} == {i for i in (0, 1) for x in m1[2] if ordered(x, i)}
-    run.check("R4", "formula-a", ok, "est_liquidity_for_token_a is not ((upper * lower * amount) >> 64) / (upper - lower) with the shift after both multiplications: %s" % [sh(r, 160) for r in ra], loc=fa.loc(),
-              detail="floor(((upper * lower * amount) >> 64) / (upper - lower))")
-    pvb = prov_of(fb)
-    rb = [strip(x) for bi, bb in enumerate(fb.blocks) if bb["t"]["k"] == "ret" for x in leaves(pvb.local(0, bi, len(bb["s"])))]
-    ok = len(rb) == 1 and rb[0][0] == "agg" and rb[0][2] == "Ok"
-    if ok:
-        v = strip(dict(rb[0][3])["0"])
-        ok = v[0] == "bin" and v[1] == "Div" and diff(v[3])
-        if ok:
-            n_ = strip(v[2])
-            ok = n_[0] == "bin" and n_[1] in ("Shl", "ShlUnchecked") and const_val(n_[3]) == 64 and is_param(n_[2], "token_amount_b")
-    run.check("R4", "formula-b", ok, "est_liquidity_for_token_b is not (amount << 64) / (upper - lower): %s" % [sh(r, 120) for r in rb], loc=fb.loc(), detail="floor((amount << 64) / (upper - lower))")
+    rs, _ = results_under([up_t])
+    got = sorted({classify(r) for r in rs})
+    run.check("R4", "above-range", got == [("b", "token_max_b", ("lower", "upper"))], "price >= upper must use only token B over [lower, upper] (found %s)" % got, loc=fn.loc(), detail="floor((max_b << 64) / (upper - lower))")
+    rs, _ = results_under([up_f, lo_t])
+    got = sorted({classify(r) for r in rs})
+    run.check("R4", "below-range", got == [("a", "token_max_a", ("lower", "upper"))], "price <= lower must use only token A over [lower, upper] (found %s)" % got, loc=fn.loc(), detail="floor(((upper * lower * max_a) >> 64) / (upper - lower))")
+    rs, pv = results_under([up_f, lo_f])
+    got = []
+    for r in rs:
+        u = unwrap(r)
+        if u[0] == "call" and u[1].endswith("::min") and len(u[2]) == 2:
+            got.append(tuple(sorted(classify(x) for x in u[2])))
+        else:
+            got.append(("?", sh(r, 60)))
+    ok = got == [(("a", "token_max_a", ("current", "upper")), ("b", "token_max_b", ("current", "lower")))]
+    run.check("R4", "in-range", ok, "in range the estimate must be min(liq_a over [current, upper], liq_b over [lower, current]) (found %s)" % got, loc=fn.loc(), detail="min(liq_a[current, upper], liq_b[lower, current])")
+    # floors: the truncating 256-bit division with no +1, a single truncating u128 division with no +1
+    pv0 = prov_of(fn)
+    incr = [bi for bi, t in fn.calls() if (callee_path(t) or "").endswith("U256Muldiv::add") and not fn.blocks[bi]["c"]]
+    dv = [bi for bi, t in fn.calls() if (callee_path(t) or "").endswith("U256Muldiv::div") and not fn.blocks[bi]["c"]]
+    run.check("R4", "floor-a", bool(dv) and not incr, "the token-A estimate must use the truncating 256-bit division with no +1", loc=fn.loc(), detail="numerator.div(diff).0, no increment")
+    divs = [st for bb in fn.blocks if not bb["c"] for st in bb["s"] if st["k"] == "=" and st["rv"].get("bin") == "Div"]
+    adds = [(bi, si) for bi, bb in enumerate(fn.blocks) if not bb["c"] for si, st in enumerate(bb["s"]) if st["k"] == "=" and st["rv"].get("bin") in ("Add", "AddWithOverflow")
+            and any(const_val(pv0.operand(st["rv"][k_], bi, si)) == 1 for k_ in ("a", "b"))]
+    run.check("R4", "floor-b", 1 <= len(divs) <= 2 and not adds, "the token-B estimate must be a truncating division with no +1 (%d divisions, %d increments)" % (len(divs), len(adds)), loc=fn.loc(), detail="(amount << 64) / diff")
 
 
 def R5_wide_product(run):
